@@ -47,26 +47,26 @@ const (
 
 // Proc is one process.
 type Proc struct {
-	Name    string   `json:"name"`
-	Kind    string   `json:"kind"`
-	Cmd     string   `json:"cmd,omitempty"`
-	Outs    []*Out   `json:"outs,omitempty"`
-	Cores   int      `json:"cores,omitempty"`
-	Prepend string   `json:"prepend,omitempty"`
-	Feeds   []*Feed  `json:"feeds,omitempty"`
-	Files   []string `json:"files,omitempty"`  // filesource: paths; globber: patterns
-	Values  []string `json:"values,omitempty"` // paramsource
-	Tags    []*TagRule `json:"tags,omitempty"` // maptotags
-	OutPath string   `json:"out_path,omitempty"`
-	GroupBy string   `json:"group_by,omitempty"`
-	Lines   int      `json:"lines,omitempty"`
-	Ports   []string `json:"ports,omitempty"` // fcomb / pcomb / selector
-	Pred    string   `json:"pred,omitempty"`  // selector predicate: "all" | "none" | "mask:<bits>" | "notcontains:<s>"
-	File    string   `json:"file,omitempty"`
-	Shell   string   `json:"shell,omitempty"`
-	WriteAPI bool    `json:"write_api,omitempty"` // gofunc: use the documented OutIP(p).Write()
-	DepIn   bool     `json:"dep_in,omitempty"`    // globber: NewFileGlobberDependent
-	DelayMS int      `json:"delay_ms,omitempty"`  // recorder: pause before every receive (a slow consumer)
+	Name     string     `json:"name"`
+	Kind     string     `json:"kind"`
+	Cmd      string     `json:"cmd,omitempty"`
+	Outs     []*Out     `json:"outs,omitempty"`
+	Cores    int        `json:"cores,omitempty"`
+	Prepend  string     `json:"prepend,omitempty"`
+	Feeds    []*Feed    `json:"feeds,omitempty"`
+	Files    []string   `json:"files,omitempty"`  // filesource: paths; globber: patterns
+	Values   []string   `json:"values,omitempty"` // paramsource
+	Tags     []*TagRule `json:"tags,omitempty"`   // maptotags
+	OutPath  string     `json:"out_path,omitempty"`
+	GroupBy  string     `json:"group_by,omitempty"`
+	Lines    int        `json:"lines,omitempty"`
+	Ports    []string   `json:"ports,omitempty"` // fcomb / pcomb / selector
+	Pred     string     `json:"pred,omitempty"`  // selector predicate: "all" | "none" | "mask:<bits>" | "notcontains:<s>"
+	File     string     `json:"file,omitempty"`
+	Shell    string     `json:"shell,omitempty"`
+	WriteAPI bool       `json:"write_api,omitempty"` // gofunc: use the documented OutIP(p).Write()
+	DepIn    bool       `json:"dep_in,omitempty"`    // globber: NewFileGlobberDependent
+	DelayMS  int        `json:"delay_ms,omitempty"`  // recorder: pause before every receive (a slow consumer)
 }
 
 // Out configures the path of an out-port.
